@@ -150,12 +150,12 @@ structure Q where
   lastRaw : Option C
   zw : Bool
   u0 : Option Ch
-  u1 : Option C
+  u1hl : Bool       -- the unit before the last one is HL (LB21a)
   bs : Option C
   num : Num
   odd : Bool
 deriving DecidableEq, Repr, Hashable
-def q0 : Q := ⟨none, false, none, none, none, .none, false⟩
+def q0 : Q := ⟨none, false, none, false, none, .none, false⟩
 def attaches (q : Q) (x : Ch) : Bool := isCMZ x.cls && (match q.lastRaw with | none => false | some l => isBase l)
 def qstep (q : Q) (x : Ch) : Q :=
   if attaches q x then { q with lastRaw := some x.cls, zw := x.cls == ZW || (x.cls == SP && q.zw) }
@@ -164,7 +164,7 @@ def qstep (q : Q) (x : Ch) : Q :=
     { lastRaw := some x.cls
       zw := x.cls == ZW || (x.cls == SP && q.zw)
       u0 := some u
-      u1 := cls? q.u0
+      u1hl := cls? q.u0 == some HL
       bs := if u.cls == SP then q.bs else some u.cls
       num := if u.cls == NU then .run
              else if inNum u.cls then (if q.num == .run then .run else .none)
@@ -189,7 +189,6 @@ def qout (q : Q) (r : Ch) (nNU : Bool) : V :=
     else if isCMZ r.cls && isBase l then .no
     else
       let L := cls? q.u0
-      let L1 := q.u1
       let Lea := (q.u0.map (·.ea)) == some true
       let Lep := (q.u0.map (·.ep)) == some true
       let R := if isCMZ r.cls then AL else r.cls
@@ -208,7 +207,7 @@ def qout (q : Q) (r : Ch) (nNU : Bool) : V :=
       else if R == QU || L == some QU then .no
       else if R == CB || L == some CB then .can
       else if R == BA || R == HY || R == NS || L == some BB then .no
-      else if L1 == some HL && (L == some HY || L == some BA) then .no
+      else if q.u1hl && (L == some HY || L == some BA) then .no
       else if L == some SY && R == HL then .no
       else if R == IN then .no
       else if (L == some AL || L == some HL) && R == NU then .no
@@ -249,7 +248,7 @@ structure Inv (left : List Ch) : Prop where
   lastRaw : (summ left).lastRaw = cls? left.head?
   zw : (summ left).zw = zwsp left
   u0 : (summ left).u0 = (units left).head?
-  u1 : (summ left).u1 = cls? (units left).tail.head?
+  u1 : (summ left).u1hl = (cls? (units left).tail.head? == some HL)
   bs : (summ left).bs = beforeSp (units left)
   run : ((summ left).num == .run) = numRun (units left)
   closed : ((summ left).num == .closed) = numClosed (units left)
@@ -283,7 +282,7 @@ theorem inv_all (left : List Ch) : Inv left := by
         rw [units_cons, ← hattach, hab']; rfl
       generalize hu : (if isCMZ x.cls then (⟨AL, false, false⟩ : Ch) else x) = u at hst
       have hq : summ (x :: xs) =
-          { lastRaw := some x.cls, zw := x.cls == ZW || (x.cls == SP && (summ xs).zw), u0 := some u, u1 := cls? (summ xs).u0,
+          { lastRaw := some x.cls, zw := x.cls == ZW || (x.cls == SP && (summ xs).zw), u0 := some u, u1hl := cls? (summ xs).u0 == some HL,
             bs := if u.cls == SP then (summ xs).bs else some u.cls,
             num := if u.cls == NU then .run
                    else if inNum u.cls then (if (summ xs).num == .run then .run else .none)
